@@ -3,7 +3,9 @@
   are the ones the model uses.
 -/
 import Exmex.Generated.Constants
+import Exmex.Generated.DiffTable
 import Exmex.Model.Conv
+import Exmex.Model.Diff
 namespace Exmex.Tie
 open Exmex.Generated
 
@@ -17,5 +19,10 @@ theorem literals : nestingOffset = 100 ∧ bumpIncrement = 5 ∧ prioScale = 10 
 /-- the model really uses them: a flagged operator between two literals gets key `prio*10+5` -/
 example : sortKey [{ idx := 0, prio := 7, comm := true }] [({ kind := .num (0 : Nat) } : FlatNode Nat), { kind := .num 1 }] 0
     = 7 * prioScale + bumpIncrement := by decide
+
+/-- the derivative rule table of partial.rs (re-extracted on every run: which operator names have a
+    binary rule, which an outer rule, in source order; the shapes of the two macros and of
+    `partial_derisval` are checked by the extractor) is the one the model dispatches on -/
+theorem diff_rule_names : diffBinNames = Exmex.binRuleNames ∧ diffUnNames = Exmex.unRuleNames := by decide
 
 end Exmex.Tie
